@@ -28,9 +28,9 @@ CHECKS = {
  "C02": dict(
    engine="confluence",
    category="fault_enumeration",
-   text="Every rule firing of a run is treated as a fault point. For seeded programs (3-10 public-API constructor calls over four semiring families) and seven interpretation settings (eager, lazy/reflect/normalize then reinterpret, sequential, apply_optimizer), the undisturbed run is compared - on the whole finite integer input space and at sample points of real inputs - with (a) every run in which one firing k is declined so that the fall-through chain/reflected term takes its place (all k<=K, or a seeded sample), (b) runs in which one rule function is kept from firing on non-ground operands for the whole run, and (c) the undisturbed run in two other hash worlds. Independently every firing's result is checked against the inputs of the reflected term (no new dependence). Each run is a fresh fork of a pristine world.",
+   text="Every rule firing of a run is treated as a fault point. For seeded programs (3-10 public-API constructor calls over four semiring families) and seven interpretation settings (eager, lazy/reflect/normalize then reinterpret, sequential, apply_optimizer), the undisturbed run is compared - on the whole finite integer input space and at sample points of real inputs - with (a) every run in which one firing k is declined so that the fall-through chain/reflected term takes its place (all k<=K, or a seeded sample), (b) runs in which one rule function is kept from firing on non-ground operands for the whole run, and (c) the undisturbed run in two other hash worlds. Independently every firing's result is checked against the inputs of the reflected term (no new dependence). For marginals over real inputs and for Integrate, where every route shares one closed-form helper, a small executable reference model decides instead: the quadratic (log-measure) and the polynomial (integrand) are recovered from point evaluations only and integrated in closed form (sim/refint.py). A scenario corpus reaches rare structures on purpose (slice of slice, shared binders, every rank of a Gaussian square-root factor, tensor-vs-Constant arithmetic). Each run is a fresh fork of a pristine world.",
    design_ref="DESIGN.md section 6 (C02)",
-   note="The value of a replaced term is obtained from funsor itself by another route (other rules, or the same rules on ground instances): a rule wrong on every route passes. Float tolerance rtol 1e-6; carriers respect each semiring's side condition. Decided per sampled program, not for all programs.",
+   note="Except for real marginals and integrals (reference model), the value of a replaced term is obtained from funsor itself by another route (other rules, or the same rules on ground instances): a rule wrong on every route passes. Float tolerance rtol 1e-6; carriers respect each semiring's side condition. Decided per sampled program, not for all programs.",
    technique="deterministic simulation: rule firings as enumerated decline faults, per-rule disable, cross-hash-world agreement"),
  "C03": dict(
    engine="confluence+memo",
@@ -49,14 +49,14 @@ CHECKS = {
  "C14": dict(
    engine="rng",
    category="exploration",
-   text="The simulator owns the draw stream: numpy.random.rand/randn are replaced by a per-run deterministic stream, and in edge runs ~70% of the uniform draws are replaced by boundary values of the row's own CDF (0.0, the smallest subnormal, breakpoints and their float neighbours, 1-2^-53), with reach probes for 'draw on a leading zero-mass cell' and 'draw >= final CDF value'; for small tensors (<=6 cells quick, <=16 thorough) every boundary value of every row's CDF is enumerated at every draw position. Per draw, exact identities: inputs/output of the sample; exactly one finite point per (particle, batch element), lying in the support; total mass equal to the original's, both by direct summation and through funsor's own Delta reduction rules; Gaussians: zero noise gives the (conditional) mean and unit noise vectors give columns A with A A^T = the (conditional) covariance (dense numpy model of the sampler's contract), marginal mass preserved; Deltas: value at/away from the point, unit-mass reduce and Integrate identities. Determinism: the same stream after a prefix of unrelated events (gc, fresh-name jump, dispatch-cache drop, other work) and in a second hash world must give the byte-identical sample.",
+   text="The simulator owns the draw stream: numpy.random.rand/randn are replaced by a per-run deterministic stream, and in edge runs ~70% of the uniform draws are replaced by boundary values of the row's own CDF (0.0, the smallest subnormal, breakpoints and their float neighbours, 1-2^-53), with reach probes for 'draw on a leading zero-mass cell' and 'draw >= final CDF value'; for small tensors (<=6 cells quick, <=16 thorough) every boundary value of every row's CDF is enumerated at every draw position. Per draw, exact identities: inputs/output of the sample; exactly one finite point per (particle, batch element), lying in the support; total mass equal to the original's, both by direct summation and through funsor's own Delta reduction rules; Gaussians: zero noise gives the (conditional) mean and unit noise vectors give columns A with A A^T = the (conditional) covariance (dense numpy model of the sampler's contract), marginal mass preserved; Gaussian mixtures (log-weights + Gaussian over a shared discrete input): inputs and total mass against a dense numpy model; Deltas: value at/away from the point, unit-mass reduce and Integrate identities. Determinism: the same stream after a prefix of unrelated events (gc, fresh-name jump, dispatch-cache drop, other work) and in a second hash world must give the byte-identical sample.",
    design_ref="DESIGN.md section 6 (C14)",
    note="numpy backend only (funsor's own inverse-CDF sampler). The reduce/Integrate identities are claimed for unit-mass Deltas only, as the property states. Mass identities use rtol 1e-6; support and range are exact.",
    technique="deterministic simulation: owned random stream with injected boundary draws; per-draw exact identities; prefix/world determinism"),
  "C16": dict(
    engine="dispatch",
    category="exploration",
-   text="Every PartialDispatcher.partial_call made while sessions execute generated programs (all interpretation settings) is monitored: from the dispatcher's registered signatures alone the set of matching patterns is recomputed and the rule that runs must belong to a pattern at least as specific as every other matching one. Sessions interleave the work with dispatch-cache drops, lru_cache drops, collections (which kill and re-create parametrised classes), late registration of unrelated rules and replays, and the map (dispatcher, canonical argument-type tuple) -> rule must stay a function within the run, across sessions that use programs in a different first-use order, and across hash worlds (merged by the runner). Each dispatcher's registry is rebuilt twice in seeded permuted registration order and must resolve every observed tuple to the same rule; argument tuples are synthesised for registered term patterns by specialising positions to pool types. On the reached type pool: reflexivity on all types and transitivity on all triples (boolean matrix product) for issubclass-as-used-for-matching and for deep_issubclass; every visited term is a deep-instance of its own precise type and of every one-parameter generalisation; deep_type(frozenset) is independent of element order.",
+   text="Every PartialDispatcher.partial_call made while sessions execute generated programs (all interpretation settings) is monitored: from the dispatcher's registered signatures alone the set of matching patterns is recomputed and the rule that runs must belong to a pattern at least as specific as every other matching one. Sessions interleave the work with dispatch-cache drops, lru_cache drops, collections (which kill and re-create parametrised classes), late registration of unrelated rules and replays, and the map (dispatcher, canonical argument-type tuple) -> rule must stay a function within the run, across sessions that use programs in a different first-use order, and across hash worlds (merged by the runner). Each dispatcher's registry is rebuilt twice in seeded permuted registration order and must resolve every observed tuple to the same rule; argument tuples are synthesised for registered term patterns by specialising positions to pool types. A user-level registry with tuple / variadic / union / frozenset / catch-all patterns is dispatched in seeded orders, and every pair of its patterns (both registration orders) plus seeded subsets form small registries whose winner is checked against an executable reference reading of the patterns (member(): is the argument in the pattern; ref_sub(): is one pattern below another): the selected rule must contain the arguments and no matching pattern may be strictly more specific. deep_type of seeded containers (including inhomogeneous ones) must be a type the container is a member of. On the reached type pool plus synthesised unions and containers of unions: reflexivity on all types and transitivity on all triples (boolean matrix product) for issubclass-as-used-for-matching and for deep_issubclass; every visited term is a deep-instance of its own precise type and of every one-parameter generalisation; deep_type(frozenset) is independent of element order.",
    design_ref="DESIGN.md section 6 (C16)",
    note="Specificity = multipledispatch.conflict.supercedes; matching = issubclass on wrapped types. Synthesised tuples are generated for interpretation registries (patterns over a term's arguments), not for op dispatchers on raw arrays, where numpy scalar types inherit from both float and numpy.generic.",
    technique="deterministic simulation: monitored dispatch under seeded cache-drop/GC/late-registration histories; cross-world and permuted-registration agreement; order axioms on reached types"),
@@ -70,7 +70,7 @@ CHECKS = {
  "C17": dict(
    engine="ctxstack",
    category="fault_enumeration",
-   text="An explicit stack model runs beside the real interpretation stack while well-nested trees of context blocks (with/decorator, total and partial, memoize, adjoint tape, MonteCarlo, user-defined) execute; an exception is injected between every two body items and at every (capped/sampled) funsor-internal call of every work step and context entry, caught at varying enclosing levels. After every step and unwind: stack identity/depth, restoration of the pre-entry interpretation, layering of partial interpretations, and a behavioural fingerprint of freshly built probe terms. Fault positions are enumerated per tree; trees are exhaustive to 2 (quick) / 3 (thorough) blocks and seeded-random to depth 5/6.",
+   text="An explicit stack model runs beside the real interpretation stack while well-nested trees of context blocks (with/decorator, total and partial, memoize, adjoint tape, MonteCarlo, user-defined) execute; an exception (seven kinds, including KeyboardInterrupt and asyncio.CancelledError, which are not Exception subclasses) is injected between every two body items and at every (capped/sampled) funsor-internal call of every work step and context entry, caught at varying enclosing levels. After every step and unwind: stack identity/depth, restoration of the pre-entry interpretation, layering of partial interpretations, and a behavioural fingerprint of freshly built probe terms. Fault positions are enumerated per tree; trees are exhaustive to 2 (quick) / 3 (thorough) blocks and seeded-random to depth 5/6.",
    design_ref="DESIGN.md section 6 (C17)",
    note="Trusted: sys.monitoring delivers PY_START for every funsor Python frame; injected exceptions are subclasses of the real types. Not covered: faults inside Interpretation.__exit__/pop_interpretation, asynchronous exceptions between bytecodes, unnested (generator-interleaved) context use.",
    technique="deterministic simulation: seeded block-tree workloads + enumerated exception injection against an explicit stack model"),
